@@ -19,3 +19,35 @@ package database
 //@ ensures[C36:no-readers-releases] err == nil && len(result) == 0 ==> called(tx.Rollback)
 //@ ensures[C36:open-readers-keep-tx] err == nil && len(result) > 0 ==> !called(tx.Rollback)
 //@ effect[C36:every-reader-hooked] every ioutils.NewReadCloserWithCloseHook(_, $hook) where $hook != nil
+
+// C03. The transaction controller is what makes a failed operation traceless: whatever the operation staged outside
+// the database (part files published or renamed by pre-commit hooks) is undone by the rollback hooks, and an error is
+// reported only when the database transaction did not commit.
+//@ func (*TxController).Rollback
+//@ mode effects
+//@ ensures[C03:rollback-releases-sql-tx] t.ownsFinalization ==> called(t.tx.Rollback)
+//@ effect[C03:rollback-runs-undo-hooks] every t.tx.Rollback() if !old(t.finalized) && len(t.onRollback) > 0 needs after each(t.onRollback)(_)
+//@ ensures[C03:rollback-finalizes] t.ownsFinalization ==> t.finalized
+//@ effect[C03:no-undo-after-finalization] every each(t.onRollback)(_) where !old(t.finalized)
+
+// Commit: the database commit is attempted only after every pre-commit hook succeeded; a failing pre-commit hook or a
+// failing database commit rolls back (which runs the undo hooks); after-commit hooks run only once the database has
+// committed; and an error is reported only when the database transaction did NOT commit.
+//@ func (*TxController).Commit
+//@ mode effects
+//@ effect[C03:no-commit-after-failed-precommit-hook] every each(t.onPreCommit)(_) -> ($e) if $e != nil forbids after t.tx.Commit()
+//@ effect[C03:failed-precommit-hook-rolls-back] every each(t.onPreCommit)(_) -> ($e) if $e != nil needs after t.Rollback(_)
+//@ effect[C03:failed-precommit-hook-reported] every each(t.onPreCommit)(_) -> ($e) where $e == nil || err != nil
+//@ effect[C03:failed-commit-rolls-back] every t.tx.Commit() -> ($e) if $e != nil needs after t.Rollback(_)
+//@ effect[C03:after-commit-hooks-only-after-commit] every each(t.onAfterCommit)(_) needs before t.tx.Commit() -> ($e) where $e == nil
+//@ ensures[C03:failed-commit-reported] called(t.tx.Commit) && result_of(t.tx.Commit, 0) != nil ==> err != nil
+//@ ensures[C03:error-means-not-committed] err != nil ==> !(called(t.tx.Commit) && result_of(t.tx.Commit, 0) == nil)
+
+// WithTx: the body's error (or the rollback's) is reported and the transaction is rolled back, never committed; without
+// an error the result is the commit's.
+//@ func WithTx
+//@ mode effects
+//@ ensures[C03:body-error-rolls-back] called(fn) && result_of(fn, 0) != nil ==> called(tx.Rollback) && !called(tx.Commit)
+//@ ensures[C03:body-error-reported] called(fn) && result_of(fn, 0) != nil ==> err != nil
+//@ ensures[C03:success-means-committed] err == nil ==> called(tx.Commit) && result_of(tx.Commit, 0) == nil
+//@ ensures[C03:begin-error-reported] result_of(db.BeginTx, 1) != nil ==> err != nil && !called(fn)
